@@ -859,6 +859,11 @@ func startKeepalive(session keepaliveSession, interval time.Duration, failureThr
 			case <-ctx.Done():
 				return
 			case <-ticker.C:
+				// A tick may be waiting when keepalive is cancelled; select picks at
+				// random among ready cases, so give the cancellation precedence.
+				if ctx.Err() != nil {
+					return
+				}
 				pingCtx, pingCancel := context.WithTimeout(context.Background(), interval/2)
 				err := session.Ping(pingCtx, nil)
 				pingCancel()
